@@ -18,7 +18,7 @@ ASSUMPTIONS = ["the amount of an EOM drift correction is decided by C15; here it
                "Ramsey tolerance 1e-3 (emulator 1-ns discretisation observed <= 3e-5)"]
 TIERS = {"quick": dict(cases=1000, shards=8, case_timeout=180, shard_timeout=900),
          "thorough": dict(cases=16000, shards=16, case_timeout=180, shard_timeout=3000)}
-FLOORS = {"quick": {"refs_compared": 20000, "pulse_phases_checked": 2500, "explicit_shifts": 1500, "ramsey_checked": 40, "mappable_builds_checked": 80, "ramsey_xy_masked_checked": 10, "ramsey_detuned_checked": 10},
+FLOORS = {"quick": {"refs_compared": 20000, "pulse_phases_checked": 2500, "explicit_shifts": 1500, "ramsey_checked": 40, "mappable_builds_checked": 80, "ramsey_xy_masked_checked": 10, "ramsey_detuned_checked": 10, "ramsey_two_channels_checked": 20},
           "thorough": {"refs_compared": 300000}}
 WEIGHTS = {"phase_shift": 6, "phase_shift_index": 2, "add": 10, "add_eom_pulse": 7, "target": 3, "declare_channel": 3,
            "sample": 0, "str": 0, "to_abstract_repr": 0, "build_copy": 0, "queries": 0, "measure": 0.02,
@@ -142,8 +142,56 @@ def ramsey_detuned(ctx, rng, k: int) -> None:
                       f"ramsey:detuned-wait:{basis}", case={"ramsey_detuned": dict(kind=kind, phi=phi, delta=delta, wait=W)})
 
 
+def ramsey_two_channels(ctx, rng, k: int) -> None:
+    """The two pi/2 pulses are played by two *different* channels of one basis (the reference is kept per atom and
+    basis, not per channel), in both declaration orders: excitation cos^2(phi/2)."""
+    import pulser
+    from pulser_simulation import QutipEmulator
+
+    pair = [("rydberg_global", "rydberg_global"), ("rydberg_global", "rydberg_local"), ("rydberg_local", "rydberg_global"),
+            ("raman_global", "raman_local"), ("raman_global", "raman_global")][k % 5]
+    first_declared_plays_first = (k // 5) % 2 == 0
+    how = ["phase_shift", "post_phase_shift", "phase_shift_index"][(k // 10) % 3]
+    phi = ANGLES[1:][(k // 3) % (len(ANGLES) - 1)]
+    T = [100, 252][(k // 30) % 2]
+    reg = pulser.Register({"a": (0.0, 0.0)})
+    seq = pulser.Sequence(reg, pulser.MockDevice)
+    names = ["c1", "c2"]
+    for n, kind in zip(names, pair if first_declared_plays_first else pair[::-1]):
+        seq.declare_channel(n, kind, **({"initial_target": "a"} if "local" in kind else {}))
+    one, two = names if first_declared_plays_first else names[::-1]
+    basis = "digital" if "raman" in pair[0] else "ground-rydberg"
+    omega = (math.pi / 2) / (T * 1e-3)
+    half = pulser.Pulse.ConstantPulse(T, omega, 0.0, 0.0)
+    if how == "post_phase_shift":
+        seq.add(pulser.Pulse.ConstantPulse(T, omega, 0.0, 0.0, post_phase_shift=phi), one)
+    else:
+        seq.add(half, one)
+        if how == "phase_shift":
+            seq.phase_shift(phi, "a", basis=basis)
+        else:
+            seq.phase_shift_index(phi, 0, basis=basis)
+    seq.add(half, two)
+    psi = np.asarray(QutipEmulator.from_sequence(seq).run().get_final_state().full()).ravel()
+    g_index = 1 if basis == "ground-rydberg" else 0
+    p_exc = 1.0 - abs(psi[g_index]) ** 2
+    want = math.cos(phi / 2) ** 2
+    ctx.count("ramsey_checked")
+    ctx.count("ramsey_two_channels_checked")
+    ctx.mark_nontrivial(("ramsey2", pair, phi, T, how, first_declared_plays_first))
+    if abs(p_exc - want) > 1e-3:
+        ctx.violation("ramsey", f"pi/2 on {one} ({pair[0]}), {how}({phi}), pi/2 on {two} ({pair[1]}), T={T}, "
+                      f"{'first' if first_declared_plays_first else 'second'}-declared channel plays first: excitation "
+                      f"{p_exc:.6f}, cos^2(phi/2)={want:.6f}", f"ramsey:two-channels:{how}",
+                      case={"ramsey_two_channels": dict(pair=pair, phi=phi, T=T, how=how, first_declared_plays_first=first_declared_plays_first)})
+
+
 def run_case(ctx, idx, rng, tier):
     stride = 8 if tier == "quick" else 4
+    if idx % (stride * 3) == 1:
+        ramsey_two_channels(ctx, rng, idx // (stride * 3))
+        ctx.case = {"ramsey_two_channels_index": idx // (stride * 3)}
+        return
     if idx % stride == 0:
         k = idx // stride
         if k % 4 == 3:
@@ -170,6 +218,7 @@ def run_case(ctx, idx, rng, tier):
     # every way of writing a pulse carries a post-phase-shift: the plain constructor and the arbitrary-phase one
     g.pulse_fn = lambda rr, c, ph: gen.gen_pulse(rr, c, phase=ph, pps_p=0.35, arb=0.2, big=False)
     g.motifs["equalize"] = 0.35
+    g.motifs["short-behind"] = 0.12
     for _ in range(rng.randint(8, 40)):
         op = g.next_op()
         ev = r.step(op)
